@@ -996,7 +996,8 @@ struct equal_n_fn<pixel<T, CS> const*, pixel<T, CS> const*>
 private:
     static bool apply(pixel<T, CS> const* i1, std::ptrdiff_t n, pixel<T, CS> const* i2, std::true_type)
     {
-        return memcmp(i1, i2, n * sizeof(pixel<T, CS>)) == 0;
+        // n == 0: the views may be over a null pointer (degenerate images), which memcmp must not be given
+        return n == 0 || memcmp(i1, i2, n * sizeof(pixel<T, CS>)) == 0;
     }
     // floating point channels are not bitwise comparable (+0.0 == -0.0, NaN != NaN)
     static bool apply(pixel<T, CS> const* i1, std::ptrdiff_t n, pixel<T, CS> const* i2, std::false_type)
@@ -1025,6 +1026,8 @@ struct equal_n_fn<planar_pixel_iterator<IC, CS>, planar_pixel_iterator<IC, CS>>
 
         // FIXME: ptrdiff_t vs size_t
         std::ptrdiff_t const byte_size = n * sizeof(typename std::iterator_traits<IC>::value_type);
+        if (byte_size == 0)
+            return true; // nothing to compare; the planes may be null pointers (degenerate images)
         for (std::ptrdiff_t i = 0; i < mp11::mp_size<CS>::value; ++i)
         {
             if (memcmp(dynamic_at_c(i1, i), dynamic_at_c(i2, i), byte_size) != 0)
